@@ -20,6 +20,8 @@ two members have the same measures.  A hand-written library of pairs outside the
 
 from __future__ import annotations
 
+import os
+
 import functools
 import json
 import multiprocessing
@@ -47,7 +49,7 @@ INVARIANT Dump
 """
 
 UNIVERSES = ("alg", "index", "cond", "deriv", "bfo", "md", "measure", "elem")
-JAVA = "-DTLA-Library=/verif/spec -Xmx3g -Xmn256m -XX:ParallelGCThreads=2 -Dtlc2.tool.queue.IStateQueue=StateDeque"
+JAVA = "-DTLA-Library=" + os.path.join(os.path.dirname(os.path.dirname(os.path.dirname(os.path.abspath(__file__)))), "spec") + " -Xmx3g -Xmn256m -XX:ParallelGCThreads=2 -Dtlc2.tool.queue.IStateQueue=StateDeque"
 
 
 class Job:
